@@ -154,6 +154,28 @@ def _consts(e):
     return out
 
 
+def cvc5_verdict(smt2, timeout_ms=20000):
+    """second opinion on one query: the cvc5 1.4 Python API parses z3's SMT-LIB2 export of the very same assertion set"""
+    import cvc5
+    slv = cvc5.Solver()
+    slv.setOption('tlimit-per', str(timeout_ms))
+    slv.setLogic('ALL')
+    par = cvc5.InputParser(slv)
+    par.setStringInput(cvc5.InputLanguage.SMT_LIB_2_6, smt2, 'q')
+    sm = par.getSymbolManager()
+    res = None
+    while True:
+        cmd = par.nextCommand()
+        if cmd.isNull():
+            break
+        out = cmd.invoke(slv, sm).strip()
+        if '(error' in out:
+            return 'error'
+        if out in ('sat', 'unsat', 'unknown'):
+            res = out
+    return res or 'unknown'
+
+
 class Rec:
     """Per-case recorder: obligations with verdicts, twins, vacuity, candidate violations."""
 
@@ -179,6 +201,12 @@ class Rec:
         self.extra = {}
         self.validations = []      # requests for pristine shim validation
         self.pchecks = []          # obligations decided in the pristine interpreter (they need the real numeric solver)
+        import os
+        import random as _r
+        # solver cross-check (DESIGN 4.5): a seeded sample of the queries is re-decided by cvc5 in the thorough tier
+        self.xrate = float(os.environ.get('VERIF_XCHECK_RATE', '0.03' if os.environ.get('VERIF_TIER_ACTIVE') == 'thorough' else '0'))
+        self.xrnd = _r.Random('%s/%s/%s' % (prop, case_id, os.environ.get('VERIF_SEED_ACTIVE', '0')))
+        self.xstats = dict(agree=0, disagree=0, cvc5_unknown=0, skipped=0)
 
     # -- low level
     def _check(self, assume, extra, timeout_ms=None):
@@ -190,7 +218,32 @@ class Rec:
         r = s.check()
         el = time.time() - t0
         self.solver_s += el
+        if r != z3.unknown:
+            self._xcheck(s, str(r), 'query')
         return r, s, el
+
+    def _xcheck(self, solver, verdict, name):
+        if self.xrate <= 0 or self.xrnd.random() >= self.xrate:
+            return
+        try:
+            txt = solver.to_smt2()
+            if 'exists' in txt or 'forall' in txt:
+                self.xstats['skipped'] += 1
+                return
+            t0 = time.time()
+            v2 = cvc5_verdict(txt)
+            self.extra['cvc5_s'] = self.extra.get('cvc5_s', 0) + round(time.time() - t0, 3)
+        except Exception as e:  # noqa: BLE001
+            self.xstats['skipped'] += 1
+            self.notes.append('cvc5 cross-check skipped for %s: %s' % (name, str(e)[:80]))
+            return
+        if v2 in ('unknown', 'error'):
+            self.xstats['cvc5_unknown'] += 1
+        elif v2 == verdict:
+            self.xstats['agree'] += 1
+        else:
+            self.xstats['disagree'] += 1
+            self.obligations.append(dict(name=name + '/cvc5_disagrees(z3=%s,cvc5=%s)' % (verdict, v2), verdict='unknown', secs=0, form='xcheck'))
 
     def vacuity(self, name, assume):
         """assumptions of an obligation family must be satisfiable; returns a model env or None"""
@@ -276,7 +329,7 @@ class Rec:
         if not bases:
             return None
         mc = _atomic_margin_constraint(goal, 1e-3) if goal is not None else None
-        for w in (Fraction(1, 4), Fraction(1, 1), Fraction(7, 100)):
+        for w in (Fraction(1, 4), Fraction(1, 1), Fraction(7, 100), Fraction(10, 1)):
             pin = [z3.Real(c) == z3.RealVal(str(w)) for c in bases]
             envw = {c: float(w) for c in bases}
             try:
@@ -341,7 +394,7 @@ class Rec:
                     twins_ok=self.twins_ok, twins_bad=self.twins_bad, vacuity_ok=self.vacuity_ok,
                     vacuity_bad=self.vacuity_bad, paths=self.paths, rejected_paths=self.rejected_paths,
                     solver_s=self.solver_s, samples=self.samples, notes=self.notes, known_hits=self.known_hits,
-                    subtolerance=self.subtolerance, functions=sorted(_lift.TRACED), extra=self.extra,
+                    subtolerance=self.subtolerance, functions=sorted(_lift.TRACED), extra=dict(self.extra, **{'cvc5_' + k: v for k, v in self.xstats.items()}),
                     validations=self.validations, pchecks=self.pchecks, distinct=len(self.distinct))
 
 
